@@ -214,6 +214,8 @@ Proof.
   { unfold frame_len. destruct Hg as (Hb & Hs & _ & Hn). apply Z.mul_pos_pos; [apply Z.mul_pos_pos; lia|lia]. }
   destruct (Z.eqb_spec (zlen src) 0); [lia|].
   assert (Hn15 : 1 <= nseg g <= 15). { unfold nseg. destruct Hg as (Hb & Hs & H & _). nia. }
+  destruct (Z.eqb_spec (g_npix g) 0); [destruct Hg as (_ & _ & _ & Hn); lia|].
+  destruct (Z.ltb_spec (nseg g) 1); [lia|]. destruct (Z.gtb_spec (nseg g) 15); [lia|]. cbn [orb].
   rewrite (enc_segs_run g src (Z.to_nat (nseg g)) 16 0 e_init); try assumption; try reflexivity; try lia.
   fold (seg_list g src). set (segs := seg_list g src).
   assert (Hls : length segs = Z.to_nat (nseg g)) by (unfold segs, seg_list; rewrite map_length, zrange_length; reflexivity).
